@@ -176,7 +176,7 @@ Section CountedRt.
     intros HF Hs. pose proof (Forall2_length _ _ _ HF) as Hlen.
     assert (Hn : zlen bs = Z.of_nat (length xs)) by (unfold zlen; lia).
     destruct s as [lo hi ext]. unfold sized in Hs. unfold get_sized. cbv zeta in *.
-    set (constrained := match hi with Some h => h - lo <? 65536 | None => false end) in *.
+    set (constrained := match hi with Some h => h <? 65536 | None => false end) in *.
     destruct (in_scon (SCon lo hi ext) (zlen bs)) eqn:Ein.
     - (* in the root *)
       cbn [negb andb] in Hs.
